@@ -6,6 +6,7 @@ M="$1"; ID="$2"; WT="${3:-/tmp/wt_conf}"
 cd "$WT" || exit 2
 export CARGO_NET_OFFLINE=true
 git checkout -q -- . ; rm -f tests/demo_*.rs
+export CARGO_INCREMENTAL=0
 fresh() { rm -rf target/debug/.fingerprint/ntex-mqtt-*; }
 DEMO=$(ls "$M"/demo*.rs 2>/dev/null | head -1)
 if [ -z "$DEMO" ] && [ -f "$M/demo.diff" ]; then
